@@ -283,4 +283,111 @@ theorem nonflex_string_65535_reads_null (s rest : Bytes) (h : s.length = 65535) 
 
 example : (encodeNullableString (some (List.replicate 3 7))) = [0, 3, 7, 7, 7] := by decide
 
+/-! ### the reply stream of a connection: replies = filterMap over requests, in order -/
+
+/-- The handler contract the connection loop relies on: `Handle` returns `(nil, nil)` exactly for the requests that expect no reply. -/
+def Answers (handle : Req → Outcome) : Prop := ∀ r, handle r = .nothing ↔ expectsReply r = false
+
+/-- The tail of `handleProduce` keeps the contract: an acks=0 produce gets nothing — however many partitions were rejected —,
+every other produce gets its response. -/
+theorem produce_contract (acks : Int) (failed : Nat) (body : Bytes) :
+    produceOutcome acks failed body = (if acks = 0 then .nothing else .payload body) ∧
+    (produceOutcome acks failed body = .nothing ↔ acks = 0) ∧ produceOutcome acks failed body ≠ .error := by
+  unfold produceOutcome
+  by_cases h : acks = 0 <;> simp [h]
+
+/-- `Handle` (by outcome class) keeps the contract, whatever the handlers compute. -/
+theorem handleOutcome_answers (failed : Req → Nat) (body : Req → Bytes) (fails : Req → Bool) :
+    Answers (handleOutcome failed body fails) := by
+  intro r
+  unfold handleOutcome handleOutcomeWith produceOutcome expectsReply
+  by_cases hk : r.key = 0
+  · by_cases ha : r.acks = 0 <;> simp [hk, ha]
+  · by_cases hf : fails r = true <;> simp [hk, hf]
+
+/-- STREAM THEOREM: if the handler keeps the contract, the frames written on a connection are exactly one frame per
+reply-expecting request, in request order (`filterMap`): nothing for an acks=0 produce, nothing unsolicited. -/
+theorem reply_stream (respFlex : Int → Int → Bool) (errBody : Int → Int → Bytes) (handle : Req → Outcome) (ha : Answers handle)
+    (reqs : List Req) :
+    serve respFlex errBody handle reqs
+      = reqs.filterMap fun r => if expectsReply r then some (replyFrame respFlex errBody r (handle r)) else none := by
+  unfold serve
+  induction reqs with
+  | nil => rfl
+  | cons r rest ih =>
+    rw [List.flatMap_cons, ih, List.filterMap_cons]
+    by_cases he : expectsReply r = true
+    · have hn : handle r ≠ .nothing := fun h => by rw [(ha r).mp h] at he; exact absurd he (by decide)
+      simp only [he, if_true]
+      cases ho : handle r with
+      | payload b => simp [framesFor]
+      | nothing => exact absurd ho hn
+      | error => simp [framesFor]
+    · have he' : expectsReply r = false := by simpa using he
+      have : handle r = .nothing := (ha r).mpr he'
+      simp [he', this, framesFor]
+
+/-- … for the broker's `Handle`, whatever the handlers compute. -/
+theorem broker_reply_stream (respFlex : Int → Int → Bool) (errBody : Int → Int → Bytes) (failed : Req → Nat) (body : Req → Bytes)
+    (fails : Req → Bool) (reqs : List Req) :
+    serve respFlex errBody (handleOutcome failed body fails) reqs
+      = (reqs.filter expectsReply).map fun r => replyFrame respFlex errBody r (handleOutcome failed body fails r) := by
+  rw [reply_stream respFlex errBody _ (handleOutcome_answers failed body fails)]
+  induction reqs with
+  | nil => rfl
+  | cons r rest ih =>
+    rw [List.filterMap_cons, List.filter_cons]
+    by_cases he : expectsReply r = true <;> simp [he, ih]
+
+/-- every frame written starts with the correlation id of its request -/
+theorem replyFrame_corr (respFlex : Int → Int → Bool) (errBody : Int → Int → Bytes) (r : Req) (o : Outcome)
+    (hc : -2 ^ 31 ≤ r.corr ∧ r.corr < 2 ^ 31) : frameCorr (replyFrame respFlex errBody r o) = r.corr := by
+  have h4 : ∀ (k v : Int) (rest : Bytes), (ProtoHeader.responseHeader respFlex k v r.corr ++ rest).take 4 = putU32 (twos 32 r.corr) := by
+    intro k v rest
+    unfold ProtoHeader.responseHeader encodeResponseHeader
+    split <;> simp [putU32]
+  unfold frameCorr
+  cases o with
+  | payload b => simp only [replyFrame, replyHeader]; rw [h4, u32_put _ (twos32_lt r.corr), toInt32_twos r.corr hc]
+  | nothing => simp only [replyFrame]; rw [h4, u32_put _ (twos32_lt r.corr), toInt32_twos r.corr hc]
+  | error => simp only [replyFrame]; rw [h4, u32_put _ (twos32_lt r.corr), toInt32_twos r.corr hc]
+
+/-- What a pipelining client observes: the k-th reply on the connection exists exactly for the k-th reply-expecting request and
+carries THAT request's correlation id. -/
+theorem reply_stream_aligned (respFlex : Int → Int → Bool) (errBody : Int → Int → Bytes) (failed : Req → Nat) (body : Req → Bytes)
+    (fails : Req → Bool) (reqs : List Req) (hc : ∀ r ∈ reqs, -2 ^ 31 ≤ r.corr ∧ r.corr < 2 ^ 31) :
+    (serve respFlex errBody (handleOutcome failed body fails) reqs).map frameCorr = (reqs.filter expectsReply).map (·.corr) := by
+  rw [broker_reply_stream, List.map_map]
+  apply List.map_congr_left
+  intro r hr
+  exact replyFrame_corr respFlex errBody r _ (hc r (List.mem_filter.mp hr).1)
+
+/-- What the stream theorem excludes (the witness): if rejected partitions of an acks=0 produce were reported as a handler error,
+the connection loop would answer it with an error frame — the client, which sent [produce acks=0 (corr 1), ApiVersions (corr 100)]
+and waits for ONE reply carrying 100, reads a frame carrying 1. -/
+theorem acks0_error_desynchronises :
+    let handle := handleOutcomeWith produceOutcomeErr (fun _ => 1) (fun _ => []) (fun _ => false)
+    let reqs : List Req := [{ key := 0, ver := 7, corr := 1, acks := 0 }, { key := 18, ver := 0, corr := 100, acks := 0 }]
+    (serve (fun _ _ => false) (fun _ _ => []) handle reqs).map frameCorr = [1, 100] ∧
+    (reqs.filter expectsReply).map (·.corr) = [100] ∧ ¬ Answers handle := by
+  refine ⟨by decide, by decide, ?_⟩
+  intro h
+  have := (h { key := 0, ver := 7, corr := 1, acks := 0 }).mpr (by decide)
+  exact absurd this (by decide)
+
+/-- OBLIGATIONS over the regenerated source facts (go/ast over `Handle` and the `handle*` functions it calls): the only
+`return nil, nil` any arm can reach is the one inside `if req.Acks == 0` of the Produce arm … -/
+theorem noreply_only_acks0_produce : ∀ e ∈ noReplyReturns, e.1 = 0 ∧ e.2 = 1 := by decide
+
+/-- … and inside that guard nothing but `nil, nil` is returned (no error that the connection loop would turn into a frame, no payload). -/
+theorem acks0_guard_returns_nothing : ∀ e ∈ acks0Returns, e.1 = 0 ∧ e.2 = 0 := by decide
+
+example : expectsReply { key := 0, ver := 7, corr := 1, acks := 0 } = false := by decide
+example : expectsReply { key := 0, ver := 7, corr := 1, acks := -1 } = true := by decide
+example : expectsReply { key := 18, ver := 0, corr := 1, acks := 0 } = true := by decide
+example : Answers (handleOutcome (fun _ => 3) (fun _ => [1]) (fun r => r.key == 3)) := handleOutcome_answers _ _ _
+example : (serve (fun _ _ => false) (fun _ _ => []) (handleOutcome (fun _ => 1) (fun _ => [9]) (fun r => r.key == 3))
+    [{ key := 0, ver := 7, corr := 1, acks := 0 }, { key := 3, ver := 1, corr := 2, acks := 0 }, { key := 0, ver := 7, corr := 3, acks := 1 },
+     { key := 0, ver := 3, corr := 4, acks := 0 }, { key := 18, ver := 0, corr := 5, acks := 0 }]).map frameCorr = [2, 3, 5] := by decide
+
 end KafVerif.C11
